@@ -275,6 +275,148 @@ Definition cosmos_priority (p : params) (gas : Z) (fee : fcoins) (tip : option Z
 Definition eth_priority (p : params) (ms : list emsg) : Z :=
   fold_left (fun acc m => Z.min acc (prio_of (eff_price (p_base p) m - p_base p))) ms max_int64.
 
+(** ---- several signers ---- *)
+(** A Cosmos transaction may wrap Ethereum messages of different signers (each
+    MsgEthereumTx carries its own signature).  [smsg] = (signer id, message); the
+    aISLM balances of the signers are a function [N -> Z] (value transfers are not
+    part of it: the harness removes the value each signer moved).
+
+    EthGasConsumeDecorator: per message VerifyFee, then deductFee of exactly that
+    message's fee from that message's signer, on the running balances.
+    ApplyTransaction (RefundGas): the leftover of a message goes back to the signer
+    of that message. *)
+Definition smsg : Type := N * emsg.
+
+Definition badd (b : N -> Z) (s : N) (d : Z) : N -> Z :=
+  fun x => if N.eqb x s then b x + d else b x.
+
+(** returns the balances after the deductions and the total deducted *)
+Fixpoint gas_consume_s (check : bool) (p : params) (b : N -> Z) (sms : list smsg) (acc : Z)
+  : N + ((N -> Z) * Z) :=
+  match sms with
+  | [] => inr (b, acc)
+  | (s, m) :: r =>
+      if check && (m_gas m <? m_intr m) then inl EOther
+      else if fee_cap m <? p_base p then inl EFee
+      else
+        let fee := eff_fee (p_base p) m in
+        if fee =? 0 then gas_consume_s check p b r acc
+        else if b s <? fee then inl EFee
+        else gas_consume_s check p (badd b s (- fee)) r (acc + fee)
+  end.
+
+Fixpoint first_error_s (f : smsg -> N) (sms : list smsg) : N :=
+  match sms with
+  | [] => OK
+  | m :: r => if N.eqb (f m) OK then first_error_s f r else f m
+  end.
+
+Definition can_transfer_s (p : params) (b : N -> Z) (sm : smsg) : N := can_transfer p (b (fst sm)) (snd sm).
+
+Definition eth_ante_s (check : bool) (p : params) (b : N -> Z) (sms : list smsg) : N + ((N -> Z) * Z) :=
+  if negb (eth_min_price p (map snd sms)) then inl EFee
+  else if check && existsb (fun sm : smsg => b (fst sm) <? declared_fee (snd sm) + m_value (snd sm)) sms then inl EFunds
+  else if negb (N.eqb (first_error_s (can_transfer_s p b) sms) OK) then inl (first_error_s (can_transfer_s p b) sms)
+  else gas_consume_s check p b sms 0.
+
+(** ApplyTransaction per message; the refund goes to the message's own signer *)
+Fixpoint run_msgs_s (p : params) (b : N -> Z) (coll : Z) (sms : list smsg) (evs : list evm_out)
+  : option ((N -> Z) * Z * list (Z * Z)) :=
+  match sms with
+  | [] => Some (b, coll, [])
+  | (s, m) :: r =>
+      match apply_msg p coll m (hd HardErr evs) with
+      | None => None
+      | Some (u, a) =>
+          match run_msgs_s p (badd b s a) (coll - a) r (tl evs) with
+          | None => None
+          | Some (b', c', l) => Some (b', c', (u, a) :: l)
+          end
+      end
+  end.
+
+Inductive result_s :=
+| RejectedS (code : N)                                       (* no state change *)
+| FailedS (b : N -> Z) (coll : Z) (gas : Z)                  (* ante effects kept, messages rolled back *)
+| ExecutedS (b : N -> Z) (coll : Z) (l : list (Z * Z)).      (* balances afterwards; per message gas used, amount refunded *)
+
+Definition deliver_eth_s (p : params) (b : N -> Z) (coll : Z) (sms : list smsg) (evs : list evm_out) : result_s :=
+  match sms with
+  | [] => RejectedS EOther
+  | _ =>
+    if negb (forallb msg_basic_ok (map snd sms)) then RejectedS EOther else
+    match eth_ante_s false p b sms with
+    | inl c => RejectedS c
+    | inr (b1, d) =>
+        match run_msgs_s p b1 (coll + d) sms evs with
+        | None => FailedS b1 (coll + d) (zsum (map m_gas (map snd sms)))
+        | Some (b2, c2, l) => ExecutedS b2 c2 l
+        end
+    end
+  end.
+
+Definition check_eth_s (p : params) (b : N -> Z) (sms : list smsg) : N :=
+  match sms with
+  | [] => EOther
+  | _ =>
+    if negb (forallb msg_basic_ok (map snd sms)) then EOther else
+    match eth_ante_s true p b sms with inl c => c | inr _ => OK end
+  end.
+
+(** what signer [s] pays net of refunds, and what the collector keeps *)
+Definition net_s (b : N -> Z) (r : result_s) (s : N) : Z :=
+  match r with
+  | RejectedS _ => 0
+  | FailedS b1 _ _ => b s - b1 s
+  | ExecutedS b2 _ _ => b s - b2 s
+  end.
+Definition coll_s (coll : Z) (r : result_s) : Z :=
+  match r with
+  | RejectedS _ => 0
+  | FailedS _ c _ => c - coll
+  | ExecutedS _ c _ => c - coll
+  end.
+
+(** the variant that is NOT what the code does (kept for the refutation in
+    FeeProofs.v): the fees of consecutive messages of one signer are accumulated
+    and deducted in one go when the payer changes and once after the last
+    message - and the accumulator is never cleared after a deduction. *)
+Definition deduct_s (b : N -> Z) (payer : option N) (amt : Z) (acc : Z) : N + ((N -> Z) * Z) :=
+  match payer with
+  | None => inr (b, acc)
+  | Some q => if amt =? 0 then inr (b, acc)
+              else if b q <? amt then inl EFee
+              else inr (badd b q (- amt), acc + amt)
+  end.
+
+Fixpoint gas_consume_acc (p : params) (b : N -> Z) (payer : option N) (pending : Z)
+    (sms : list smsg) (acc : Z) : N + ((N -> Z) * Z) :=
+  match sms with
+  | [] => deduct_s b payer pending acc
+  | (s, m) :: r =>
+      if fee_cap m <? p_base p then inl EFee
+      else
+        let fee := eff_fee (p_base p) m in
+        let flush := match payer with
+                     | Some q => if N.eqb q s then inr (b, acc) else deduct_s b payer pending acc
+                     | None => inr (b, acc)
+                     end in
+        match flush with
+        | inl c => inl c
+        | inr (b1, acc1) => gas_consume_acc p b1 (Some s) (pending + fee) r acc1
+        end
+  end.
+
+Definition deliver_eth_acc (p : params) (b : N -> Z) (coll : Z) (sms : list smsg) (evs : list evm_out) : result_s :=
+  match gas_consume_acc p b None 0 sms 0 with
+  | inl c => RejectedS c
+  | inr (b1, d) =>
+      match run_msgs_s p b1 (coll + d) sms evs with
+      | None => FailedS b1 (coll + d) (zsum (map m_gas (map snd sms)))
+      | Some (b2, c2, l) => ExecutedS b2 c2 l
+      end
+  end.
+
 (** ---- transactions, observations, correspondence ---- *)
 Inductive txin :=
 | EthTx (ms : list emsg) (evs : list evm_out)
@@ -286,7 +428,7 @@ Record obs := mkobs {
   o_prio : Z;           (* priority the ante chain sets in CheckTx mode (0 when it refuses) *)
   o_wanted : Z;         (* response GasWanted (eth route, ante passed) *)
   o_used : Z;           (* response GasUsed (eth route, ante passed) *)
-  o_net : Z;            (* sender's balance decrease, value moved excluded *)
+  o_nets : list Z;      (* per signer id 0, 1, ...: balance decrease, value moved excluded *)
   o_coll : Z;           (* fee collector's increase *)
   o_msg_used : list Z   (* per message GasUsed of the MsgEthereumTxResponse *)
 }.
@@ -326,27 +468,63 @@ Definition check_prio (p : params) (bal : Z) (t : txin) : Z :=
     several applicable errors is reported is not an observable of the property *)
 Definition coarse (c : N) : N := if N.eqb c OK then OK else 1%N.
 
-Definition observe (p : params) (bal coll : Z) (t : txin) : obs :=
+(** [n] signers are watched; [x] at position [s], 0 elsewhere *)
+Definition ids (n : nat) : list N := map N.of_nat (seq 0 n).
+Definition spread (n : nat) (s : N) (x : Z) : list Z := map (fun i => if N.eqb i s then x else 0) (ids n).
+
+(** single-signer model: every message of the transaction is signed by [s] *)
+Definition observe (p : params) (n : nat) (s : N) (bal coll : Z) (t : txin) : obs :=
   let r := deliver p bal coll t in
   let chk := coarse (check_code p bal t) in
   let pr := check_prio p bal t in
   match r with
-  | Rejected c => mkobs (coarse c) chk pr 0 0 0 0 []
-  | Failed d g => mkobs EExec chk pr g g d d []
+  | Rejected c => mkobs (coarse c) chk pr 0 0 (spread n s 0) 0 []
+  | Failed d g => mkobs EExec chk pr g g (spread n s d) d []
   | Executed d l =>
       match t with
-      | EthTx ms _ => mkobs OK chk pr (zsum (map m_gas ms)) (zsum (map fst l)) (result_net r) (result_net r) (map fst l)
-      | CosmosTx _ _ _ _ => mkobs OK chk pr 0 0 (result_net r) (result_net r) []
+      | EthTx ms _ => mkobs OK chk pr (zsum (map m_gas ms)) (zsum (map fst l)) (spread n s (result_net r)) (result_net r) (map fst l)
+      | CosmosTx _ _ _ _ => mkobs OK chk pr 0 0 (spread n s (result_net r)) (result_net r) []
       end
   end.
 
-(** one recorded transaction: sender balance and collector balance before it,
-    the transaction, what the implementation did *)
-Definition txcase : Type := Z * Z * txin * obs.
+(** signer model of an Ethereum transaction *)
+Definition observe_s (p : params) (n : nat) (b : N -> Z) (coll : Z) (sms : list smsg) (evs : list evm_out) : obs :=
+  let r := deliver_eth_s p b coll sms evs in
+  let cc := check_eth_s p b sms in
+  let chk := coarse cc in
+  let pr := if N.eqb cc OK then eth_priority p (map snd sms) else 0 in
+  let nets := map (net_s b r) (ids n) in
+  match r with
+  | RejectedS c => mkobs (coarse c) chk pr 0 0 nets 0 []
+  | FailedS _ _ g => mkobs EExec chk pr g g nets (coll_s coll r) []
+  | ExecutedS _ _ l =>
+      mkobs OK chk pr (zsum (map m_gas (map snd sms))) (zsum (map fst l)) nets (coll_s coll r) (map fst l)
+  end.
+
+(** one recorded transaction: the aISLM balances of the signers 0, 1, ... and of
+    the fee collector before it, the signer of every message (Cosmos
+    transactions are signed by signer 0), the transaction, what the
+    implementation did *)
+Definition txcase : Type := list Z * Z * list N * txin * obs.
 Definition fcase : Type := params * list txcase.
 
+Definition bal_of (bl : list Z) (s : N) : Z := nth (N.to_nat s) bl 0.
+
+(** Ethereum transactions are evaluated with the signer model and, when all
+    messages have the same signer, also with the single-signer model *)
 Definition check_txcase (p : params) (c : txcase) : bool :=
-  let '(bal, coll, t, ob) := c in bool_decide (observe p bal coll t = ob).
+  let '(bl, coll, sg, t, ob) := c in
+  let n := length bl in
+  match t with
+  | EthTx ms evs =>
+      Nat.eqb (length sg) (length ms)
+      && bool_decide (observe_s p n (bal_of bl) coll (combine sg ms) evs = ob)
+      && match sg with
+         | s :: r => if forallb (N.eqb s) r then bool_decide (observe p n s (bal_of bl s) coll t = ob) else true
+         | [] => true
+         end
+  | CosmosTx _ _ _ _ => bool_decide (observe p n 0%N (bal_of bl 0%N) coll t = ob)
+  end.
 
 Definition check_case (c : fcase) : bool := forallb (check_txcase (fst c)) (snd c).
 
